@@ -137,6 +137,8 @@ pub fn dims_of(recs: &[Rec]) -> (u32, u32, u16, u16) {
 pub fn workbook_for(recs: Vec<Rec>, dims: bool, variant: u64, sst: &[String]) -> Workbook {
     let mut wb = Workbook::default();
     wb.xfs = vec![0, 2, 0];
+    // the CODEPAGE record does not govern BIFF8 strings: 1200 (what Excel writes), 1252, absent
+    wb.codepage = match variant % 3 { 0 => Some(1200), 1 => Some(1252), _ => None };
     if variant % 4 == 1 {
         wb.date1904 = Some(false);
     }
